@@ -56,7 +56,7 @@ def run_case(case):
     if what == "argmax":
         nd = r.randint(1, 4)
         shape = [r.randint(1, 4) for _ in range(nd)]
-        k = r.randint(1, nd)
+        k = r.randint(1, nd) if r.random() < 0.93 else 0      # the empty set of axes is a set of axes too: nothing is reduced
         axes = r.sample(range(nd), k)
         a = np.array([r.randint(-2, 2) for _ in range(int(np.prod(shape)))], dtype=float).reshape(shape)
         near = r.random() < 0.3
